@@ -417,6 +417,19 @@ def hFuseTuple : Handler := handler fun args => match args with
           | some s => (Dask.FuseSlice.applyB s b c).bind (Dask.FuseSlice.applyB dims a)))])
   | _ => none
 
+/-- `(fusetupleargs (a…) (b…))` ↦ `(outcome|(r…) pre)`: the walk on the arguments `_optimize_slices` really passes, and
+    the hypothesis of `fuse_tuple_no_index_error` (`b` indexes at least as many axes as `a` leaves) -/
+def hFuseTupleArgs : Handler := handler fun args => match args with
+  | [a, b] => do
+    let a ← (← a.toList?).mapM toIx?
+    let b ← (← b.toList?).mapM toIx?
+    let pre := SExp.ofBool (decide (Dask.FuseSlice.cntAxes a ≤ Dask.FuseSlice.cntIdx b))
+    match Dask.FuseSlice.fuseTuple a b with
+    | .notImplemented => pure (.list [.sym "notimpl", pre])
+    | .indexError => pure (.list [.sym "indexerr", pre])
+    | .ok r => pure (.list [.list (r.map ofIx), pre])
+  | _ => none
+
 /-! C25: pipeline chunk metadata -/
 open Dask.Meta in
 partial def toProg? : SExp → Option Prog
@@ -451,7 +464,7 @@ end HlgDrv
 
 def table : List (String × Handler) := [
   ("metachunks", HlgDrv.hMetaChunks), ("metablocks", HlgDrv.hMetaBlocks), ("rewrite", HlgDrv.hRewrite),
-  ("fuseslice", HlgDrv.hFuseSlice), ("chainat", HlgDrv.hChainAt), ("fusetuple", HlgDrv.hFuseTuple),
+  ("fuseslice", HlgDrv.hFuseSlice), ("chainat", HlgDrv.hChainAt), ("fusetuple", HlgDrv.hFuseTuple), ("fusetupleargs", HlgDrv.hFuseTupleArgs),
   ("mbplan", HlgDrv.hMbPlan), ("blockinfo", HlgDrv.hBlockInfo), ("loopdims", HlgDrv.hLoopDims),
   ("alignfalse", HlgDrv.hAlignFalse),
   ("bshapes", HlgDrv.hBShapes), ("cbd", HlgDrv.hCbd), ("unify", HlgDrv.hUnify), ("argpos", HlgDrv.hArgPos),
